@@ -321,6 +321,13 @@ def node_families(run, replay, cases, preplay):
             pcases.append('NODE mode=1 ndev=1 src=%d q=40 slots=5 t0=5000 %s=%s | R 18ea%02x32 3 14f001 ; P ; R 18eaff33 3 14f001 ; P' % (
                 r.choice([22, 0, 100]), key, ','.join(hx(n) for n in c), 0))
         pcases = [c.replace('18ea0032', '18ea%02x32' % int(c.split('src=')[1].split()[0])) for c in pcases]
+        # the strings set a second time at run time, some of them left out (null pointer): a field that is not given is empty, whatever an
+        # earlier call had stored there (seed C15-23)
+        for _ in range(4 if run.tier == 'quick' else 40):
+            own = r.choice([22, 100])
+            second = [r.choice(['~', '~', '-', hx(r.choice([1, 10, 32]))]) for _k in range(4)]
+            pcases.append('NODE mode=1 ndev=1 src=%d q=40 slots=5 t0=5000 prod=%s | R 18ea%02x32 3 14f001 ; P ; K s %s ; R 18ea%02x32 3 14f001 ; P ; T 300 ; P' % (
+                own, ','.join(hx(n_) for n_ in (20, 9, 12, 8)), own, ' '.join(second), own))
 
     def prod_oracle(case, res):
         if res.startswith('crash') or res.startswith('oob'):
@@ -331,7 +338,12 @@ def node_families(run, replay, cases, preplay):
         want = [2101 & 255, 2101 >> 8, 666 & 255, 666 >> 8] + fld(s[0]) + fld(s[1]) + fld(s[2]) + fld(s[3]) + [0, 1]
         per_op, _st = parse_result(res)
         n = 0
-        for evs in per_op:
+        opl = [o.split() for o in case.split('|', 1)[1].split(';')]
+        for k_, evs in enumerate(per_op):
+            if k_ < len(opl) and opl[k_] and opl[k_][0] == 'K' and len(opl[k_]) >= 6:
+                # SetProductInformation again at run time (strings; ~ = not given, the field is then empty): the latest call counts, whole
+                s = [bytes.fromhex(x) if x not in ('-', '~') else b'' for x in opl[k_][2:6]]
+                want = [2101 & 255, 2101 >> 8, 666 & 255, 666 >> 8] + fld(s[0]) + fld(s[1]) + fld(s[2]) + fld(s[3]) + [0, 1]
             fr = [e[3] for e in evs if e[0] == 'tx' and ((e[1] >> 8) & 0x1ffff) == 126996]
             if not fr:
                 continue
@@ -344,7 +356,8 @@ def node_families(run, replay, cases, preplay):
                 k = next((i for i in range(min(len(payload), len(want))) if payload[i] != want[i]), min(len(payload), len(want)))
                 return 'PGN126996.product_information:byte %d of the answer is %s, the published layout with the configured strings has %s (length %d / %d)' % (
                     k, '%02x' % payload[k] if k < len(payload) else '-', '%02x' % want[k] if k < len(want) else '-', len(payload), len(want))
-        return None if n == 2 else 'PGN126996.answers:%d answers to two requests' % n
+        nreq = sum(1 for o in opl if o and o[0] == 'R' and o[1].lower().startswith('18ea'))
+        return None if n == nreq else 'PGN126996.answers:%d answers to %d requests' % (n, nreq)
     # PGN 60928 as a node builds it from the device information the application sets at run time: SetDeviceInformation (unique number,
     # function, class, manufacturer code, industry group) and SetDeviceInformationInstances (device instance lower / upper, system
     # instance; one call may give all three), then SendIsoAddressClaim: the NAME on the bus decoded against the published bit layout (seed C15-13)
